@@ -3,14 +3,17 @@
 package main
 
 import (
+	"bytes"
 	"context"
 	"encoding/json"
 	"errors"
 	"fmt"
+	goruntime "runtime"
 	"sort"
 	"strconv"
 	"strings"
 	"sync"
+	"time"
 
 	corev1 "k8s.io/api/core/v1"
 	metav1 "k8s.io/apimachinery/pkg/apis/meta/v1"
@@ -34,6 +37,8 @@ import (
 //   cache      one op sequence -> per-op observations (JSON)
 //   cachetree  all continuations of a prefix over an alphabet up to a depth -> compact ints
 //   cacherace  several programs run by concurrent goroutines on one Cache -> per-op errors + final state
+//   cacheoverlap  call A is held inside one of its informer-map / informer calls while other calls are
+//              started on their own goroutines -> per-call results + final state (judged by linearizability)
 
 type cacheOp struct {
 	Op  string `json:"op"`  // watch | free | get | list | owners
@@ -166,6 +171,118 @@ type scriptedMap struct {
 	// handler identification
 	idMu sync.Mutex
 	sink int
+	// overlapping calls (mode cacheoverlap); nil otherwise
+	overlap *overlapCtl
+}
+
+// overlapCtl: call slot 0 ("A") is held inside its hookCall-th informer-map / informer call
+// (before or after the call's effect) while the other calls are started.
+type overlapCtl struct {
+	mu       sync.Mutex
+	slots    map[int64]int // goroutine id -> call slot
+	logs     [][]cacheEvent
+	aCalls   int
+	hookCall int
+	hookWhen string // pre | post
+	fired    bool
+	launch   func()
+}
+
+func goid() int64 {
+	var buf [64]byte
+	n := goruntime.Stack(buf[:], false)
+	// "goroutine 123 [running]:"
+	f := bytes.Fields(buf[:n])
+	if len(f) < 2 {
+		return -1
+	}
+	id, err := strconv.ParseInt(string(f[1]), 10, 64)
+	if err != nil {
+		return -1
+	}
+	return id
+}
+
+// goroutineBlockedOnLock reports whether the goroutine is parked in a sync.Mutex / sync.RWMutex.
+func goroutineBlockedOnLock(id int64) bool {
+	buf := make([]byte, 1<<16)
+	for {
+		n := goruntime.Stack(buf, true)
+		if n < len(buf) {
+			buf = buf[:n]
+			break
+		}
+		buf = make([]byte, 2*len(buf))
+	}
+	head := []byte("goroutine " + strconv.FormatInt(id, 10) + " [")
+	i := bytes.Index(buf, head)
+	if i < 0 {
+		return false
+	}
+	rest := buf[i+len(head):]
+	j := bytes.IndexByte(rest, ']')
+	if j < 0 {
+		return false
+	}
+	state := string(rest[:j])
+	return strings.Contains(state, "Lock") || strings.Contains(state, "semacquire")
+}
+
+// slot of the calling goroutine: -1 outside the overlap mode.
+func (m *scriptedMap) slot() int {
+	o := m.overlap
+	if o == nil {
+		return -1
+	}
+	id := goid()
+	o.mu.Lock()
+	defer o.mu.Unlock()
+	if s, ok := o.slots[id]; ok {
+		return s
+	}
+	return -1
+}
+
+// enter numbers the hookable calls of slot 0.
+func (m *scriptedMap) enter(slot int) int {
+	o := m.overlap
+	if o == nil || slot != 0 {
+		return -1
+	}
+	o.mu.Lock()
+	defer o.mu.Unlock()
+	o.aCalls++
+	return o.aCalls - 1
+}
+
+// hook must be called without m.mu held: the calls it starts use the scripted map themselves.
+func (m *scriptedMap) hook(slot, idx int, when string) {
+	o := m.overlap
+	if o == nil || slot != 0 {
+		return
+	}
+	o.mu.Lock()
+	fire := !o.fired && idx == o.hookCall && when == o.hookWhen
+	if fire {
+		o.fired = true
+	}
+	o.mu.Unlock()
+	if fire {
+		o.launch()
+	}
+}
+
+// armed: scripted failures belong to slot 0 when calls overlap.
+func (m *scriptedMap) armed(slot int) bool { return m.overlap == nil || slot == 0 }
+
+// logEv is called with m.mu held.
+func (m *scriptedMap) logEv(slot int, ev cacheEvent) {
+	m.log = append(m.log, ev)
+	if o := m.overlap; o != nil && slot >= 0 {
+		o.mu.Lock()
+		o.logs[slot] = append(o.logs[slot], ev)
+		o.mu.Unlock()
+	}
 }
 
 type fakeInformer struct {
@@ -185,24 +302,36 @@ func (fakeReader) List(context.Context, client.ObjectList, ...client.ListOption)
 func (m *scriptedMap) Get(
 	_ context.Context, gvk schema.GroupVersionKind, _ runtime.Object,
 ) (toolscache.SharedIndexInformer, client.Reader, error) {
+	slot := m.slot()
+	idx := m.enter(slot)
+	m.hook(slot, idx, "pre")
+	inf, rd, err := m.get(slot, gvk)
+	m.hook(slot, idx, "post")
+	return inf, rd, err
+}
+
+func (m *scriptedMap) get(slot int, gvk schema.GroupVersionKind) (toolscache.SharedIndexInformer, client.Reader, error) {
 	m.mu.Lock()
 	defer m.mu.Unlock()
 	k, ok := m.kinds[gvk]
 	if !ok {
 		return nil, nil, fmt.Errorf("harness: unknown gvk %v", gvk)
 	}
-	mode := m.failGet
-	m.failGet = ""
+	mode := ""
+	if m.armed(slot) {
+		mode = m.failGet
+		m.failGet = ""
+	}
 	if mode == "early" {
-		m.log = append(m.log, cacheEvent{T: "get", G: k, OK: false})
+		m.logEv(slot, cacheEvent{T: "get", G: k, OK: false})
 		return nil, nil, errScriptedGet
 	}
-	m.log = append(m.log, cacheEvent{T: "get", G: k, OK: mode == ""})
+	m.logEv(slot, cacheEvent{T: "get", G: k, OK: mode == ""})
 	inf, ok := m.informers[k]
 	if !ok {
 		inf = &fakeInformer{m: m, kind: k}
 		m.informers[k] = inf
-		m.log = append(m.log, cacheEvent{T: "start", G: k})
+		m.logEv(slot, cacheEvent{T: "start", G: k})
 	}
 	if mode == "sync" {
 		return nil, nil, errScriptedGet
@@ -211,20 +340,29 @@ func (m *scriptedMap) Get(
 }
 
 func (m *scriptedMap) Delete(_ context.Context, gvk schema.GroupVersionKind) error {
+	slot := m.slot()
+	idx := m.enter(slot)
+	m.hook(slot, idx, "pre")
+	err := m.delete(slot, gvk)
+	m.hook(slot, idx, "post")
+	return err
+}
+
+func (m *scriptedMap) delete(slot int, gvk schema.GroupVersionKind) error {
 	m.mu.Lock()
 	defer m.mu.Unlock()
 	k, ok := m.kinds[gvk]
 	if !ok {
 		return fmt.Errorf("harness: unknown gvk %v", gvk)
 	}
-	if m.failDelete {
-		m.log = append(m.log, cacheEvent{T: "delete", G: k, OK: false})
+	if m.failDelete && m.armed(slot) {
+		m.logEv(slot, cacheEvent{T: "delete", G: k, OK: false})
 		return errScriptedDelete
 	}
-	m.log = append(m.log, cacheEvent{T: "delete", G: k, OK: true})
+	m.logEv(slot, cacheEvent{T: "delete", G: k, OK: true})
 	if _, ok := m.informers[k]; ok {
 		delete(m.informers, k)
-		m.log = append(m.log, cacheEvent{T: "stop", G: k})
+		m.logEv(slot, cacheEvent{T: "stop", G: k})
 	}
 	return nil
 }
@@ -242,17 +380,30 @@ func (f *fakeInformer) AddEventHandler(h toolscache.ResourceEventHandler) (tools
 	id := m.sink
 	m.idMu.Unlock()
 
+	slot := m.slot()
+	idx := m.enter(slot)
+	m.hook(slot, idx, "pre")
+	err := f.add(slot, id)
+	m.hook(slot, idx, "post")
+	return nil, err
+}
+
+func (f *fakeInformer) add(slot, id int) error {
+	m := f.m
 	m.mu.Lock()
 	defer m.mu.Unlock()
-	fail := m.failAdd >= 0 && m.addCount == m.failAdd
-	m.addCount++
+	fail := false
+	if m.armed(slot) {
+		fail = m.failAdd >= 0 && m.addCount == m.failAdd
+		m.addCount++
+	}
 	if fail {
-		m.log = append(m.log, cacheEvent{T: "add", G: f.kind, H: id, OK: false})
-		return nil, errScriptedAdd
+		m.logEv(slot, cacheEvent{T: "add", G: f.kind, H: id, OK: false})
+		return errScriptedAdd
 	}
 	f.attached = append(f.attached, id)
-	m.log = append(m.log, cacheEvent{T: "add", G: f.kind, H: id, OK: true})
-	return nil, nil
+	m.logEv(slot, cacheEvent{T: "add", G: f.kind, H: id, OK: true})
+	return nil
 }
 
 type cacheRig struct {
@@ -346,9 +497,11 @@ func (r *cacheRig) call(op cacheOp) (string, *ownersRes, error) {
 }
 
 // step runs one operation with its scripted outcome and observes it.
-func (r *cacheRig) step(op cacheOp) (cacheStepObs, error) {
+// arm scripts the outcome of the next operation.
+func (r *cacheRig) arm(op cacheOp) error {
 	m := r.m
 	m.mu.Lock()
+	defer m.mu.Unlock()
 	m.log = nil
 	m.addCount = 0
 	m.failGet, m.failAdd, m.failDelete = "", -1, false
@@ -363,10 +516,16 @@ func (r *cacheRig) step(op cacheOp) (cacheStepObs, error) {
 		m.failDelete = true
 	case "ok", "":
 	default:
-		m.mu.Unlock()
-		return cacheStepObs{}, fmt.Errorf("unknown outcome %q", op.Out)
+		return fmt.Errorf("unknown outcome %q", op.Out)
 	}
-	m.mu.Unlock()
+	return nil
+}
+
+func (r *cacheRig) step(op cacheOp) (cacheStepObs, error) {
+	m := r.m
+	if err := r.arm(op); err != nil {
+		return cacheStepObs{}, err
+	}
 
 	cls, res, err := r.call(op)
 	if err != nil {
@@ -476,7 +635,169 @@ type cacheRaceObs struct {
 	Stops     []int      `json:"stops"`
 }
 
+type cacheOverlapScenario struct {
+	Handlers int       `json:"handlers"`
+	Kinds    int       `json:"kinds"`
+	Prefix   []cacheOp `json:"prefix"`
+	Calls    []cacheOp `json:"calls"` // calls[0] is held inside a call, the others are started meanwhile
+	HookCall int       `json:"hook_call"`
+	HookWhen string    `json:"hook_when"` // pre | post
+}
+
+type cacheCallObs struct {
+	Err    string       `json:"err"`
+	Events []cacheEvent `json:"ev"`
+	Res    *ownersRes   `json:"res,omitempty"`
+	Inside bool         `json:"inside"` // returned while calls[0] was held
+}
+
+type cacheOverlapObs struct {
+	Pre       []cacheStepObs `json:"pre"`
+	Calls     []cacheCallObs `json:"calls"`
+	Fired     bool           `json:"fired"` // calls[0] reached the hook
+	Hung      bool           `json:"hung"`  // some call did not return
+	Snap      []*[]int       `json:"snap"`
+	Informers []*[]int       `json:"informers"` // per kind: handlers attached to the running informer, in order
+}
+
+const (
+	overlapWindow = 50 * time.Millisecond
+	overlapHang   = 5 * time.Second
+)
+
+func runOverlap(sc cacheOverlapScenario) (any, error) {
+	if len(sc.Calls) == 0 {
+		return nil, errors.New("no calls")
+	}
+	rig, err := newCacheRig(sc.Handlers, sc.Kinds)
+	if err != nil {
+		return nil, err
+	}
+	obs := cacheOverlapObs{Pre: []cacheStepObs{}, Calls: make([]cacheCallObs, len(sc.Calls))}
+	for _, op := range sc.Prefix {
+		o, err := rig.step(op)
+		if err != nil {
+			return nil, err
+		}
+		obs.Pre = append(obs.Pre, o)
+	}
+	if err := rig.arm(sc.Calls[0]); err != nil {
+		return nil, err
+	}
+	n := len(sc.Calls)
+	ctl := &overlapCtl{slots: map[int64]int{goid(): 0}, logs: make([][]cacheEvent, n),
+		hookCall: sc.HookCall, hookWhen: sc.HookWhen}
+	done := make([]chan struct{}, n)
+	var callErr error
+	var errMu sync.Mutex
+	run := func(i int) {
+		cls, res, err := rig.call(sc.Calls[i])
+		if err != nil {
+			errMu.Lock()
+			callErr = err
+			errMu.Unlock()
+		}
+		obs.Calls[i].Err, obs.Calls[i].Res = cls, res
+	}
+	ctl.launch = func() {
+		// start the other calls one after the other; each gets the chance to return or to block
+		for i := 1; i < n; i++ {
+			done[i] = make(chan struct{})
+			ready := make(chan int64)
+			go func(i int) {
+				id := goid()
+				ctl.mu.Lock()
+				ctl.slots[id] = i
+				ctl.mu.Unlock()
+				ready <- id
+				run(i)
+				close(done[i])
+			}(i)
+			id := <-ready
+			deadline := time.Now().Add(overlapWindow)
+			seen := 0
+		wait:
+			for {
+				select {
+				case <-done[i]:
+					obs.Calls[i].Inside = true
+					break wait
+				default:
+				}
+				if time.Now().After(deadline) {
+					break
+				}
+				if goroutineBlockedOnLock(id) {
+					seen++
+					if seen >= 2 {
+						break
+					}
+				} else {
+					seen = 0
+				}
+				time.Sleep(100 * time.Microsecond)
+			}
+		}
+	}
+	rig.m.mu.Lock()
+	rig.m.overlap = ctl
+	rig.m.mu.Unlock()
+
+	run(0)
+
+	ctl.mu.Lock()
+	obs.Fired = ctl.fired
+	ctl.mu.Unlock()
+	if obs.Fired {
+		for i := 1; i < n; i++ {
+			select {
+			case <-done[i]:
+			case <-time.After(overlapHang):
+				obs.Hung = true
+			}
+		}
+	} else {
+		// calls[0] never reached the hook: run the others after it, one by one
+		for i := 1; i < n; i++ {
+			ctl.mu.Lock()
+			ctl.slots[goid()] = i
+			ctl.mu.Unlock()
+			run(i)
+		}
+	}
+	if obs.Hung {
+		return obs, nil
+	}
+	errMu.Lock()
+	defer errMu.Unlock()
+	if callErr != nil {
+		return nil, callErr
+	}
+	obs.Snap = rig.snapshot()
+	rig.m.mu.Lock()
+	defer rig.m.mu.Unlock()
+	obs.Informers = make([]*[]int, sc.Kinds)
+	for k, inf := range rig.m.informers {
+		att := append([]int{}, inf.attached...)
+		obs.Informers[k] = &att
+	}
+	ctl.mu.Lock()
+	defer ctl.mu.Unlock()
+	for i := range obs.Calls {
+		obs.Calls[i].Events = append([]cacheEvent{}, ctl.logs[i]...)
+	}
+	return obs, nil
+}
+
 func init() {
+	register("cacheoverlap", func(raw json.RawMessage) (any, error) {
+		var sc cacheOverlapScenario
+		if err := json.Unmarshal(raw, &sc); err != nil {
+			return nil, err
+		}
+		return runOverlap(sc)
+	})
+
 	register("cache", func(raw json.RawMessage) (any, error) {
 		var sc cacheScenario
 		if err := json.Unmarshal(raw, &sc); err != nil {
